@@ -5,6 +5,7 @@
 -/
 import GojaModel.C04.LemmasDefine2
 import GojaModel.C04.LemmasSet
+import GojaModel.C04.LemmasGet
 import GojaModel.C04.LemmasOrder
 import GojaModel.C04.HistIntegrity
 import GojaModel.C04.Exotic
@@ -113,6 +114,28 @@ with `P = proto(T)`, `G = proto(P)` does not write to `P` (object 1) as the stri
 theorem setForeignSym_prefix_witness :
     setForeignSymPre witView [0, 1, 2] (.sym 0) 1 (.obj 1) ≠ setForeignStr witView [0, 1, 2] (.sym 0) 1 (.obj 1) := by
   decide
+
+/-! ### [[Get]] / [[HasProperty]] / [[Delete]]: key-kind copies and spec -/
+
+/-- `getStr` / `getIdx` / `getSym` are the same function of an abstract key and refine OrdinaryGet (with Receiver) over
+arbitrary prototype chains, given the representation invariant. -/
+theorem get_copies_eq_and_refine_OrdinaryGet {V} (undef : V) (mv : MView V) (hinv : RepInvView mv) (chain : List Nat)
+    (k : Key) (r : Recv) :
+    getSym undef mv chain k r = getStr undef mv chain k r ∧ getIdx undef mv chain k r = getStr undef mv chain k r ∧
+      getStr undef mv chain k r = ordinaryGet undef (mv.abs undef) chain k r :=
+  ⟨getSym_eq_getStr undef mv k r chain, rfl, getStr_refines undef mv hinv k r chain⟩
+
+/-- `hasPropertyStr/Idx/Sym` coincide and are OrdinaryHasProperty. -/
+theorem has_copies_eq_and_refine_OrdinaryHasProperty {V} (undef : V) (mv : MView V) (chain : List Nat) (k : Key) :
+    hasPropertySym mv chain k = hasPropertyStr mv chain k ∧ hasPropertyIdx mv chain k = hasPropertyStr mv chain k ∧
+      hasPropertyStr mv chain k = ordinaryHas (mv.abs undef) chain k :=
+  ⟨hasSym_eq_hasStr mv k chain, rfl, hasStr_refines undef mv k chain⟩
+
+/-- `deleteStr/Idx/Sym` coincide and are OrdinaryDelete (a non-configurable property is never removed). -/
+theorem delete_copies_eq_and_refine_OrdinaryDelete {V} (undef : V) (mv : MView V) (o : Nat) (k : Key) :
+    deleteSym mv o k = deleteStr mv o k ∧ deleteIdx mv o k = deleteStr mv o k ∧
+      deleteStr mv o k = ordinaryDelete (mv.abs undef) o k :=
+  ⟨rfl, rfl, deleteStr_refines undef mv o k⟩
 
 /-! ### PropOrder -/
 
